@@ -242,6 +242,28 @@ def explore_meta(ctx, max_pre, limit):
                         ctx.violation(
                             f"{name} on a shared cold context (next to {(a, b)[1 - t]}) returned {_show(got) if got else None}, alone it returns {_show(alone[name])}",
                             {"meta": [a, b], "choices": [d.chosen for d in r.decisions], "trace": r.trace[:60]})
+    # check-then-read readers of the metadata cache against operations that BUILD metadata on the cold context, with
+    # TWO preemptions at the grain of XmlContext's own methods (a stale publication of the cache needs the builder to be
+    # interrupted, the reader to be interrupted, and the builder to publish in between)
+    sched2 = sched.Scheduler(cb.meta_markers(context_only=True), timeout=20.0)
+    for a in ("by_fields", "dec_subset_noclass"):
+        for b in ("all_vars", "enc_shuffled", "xml_text"):
+            def run_twice(prefix, a=a, b=b):
+                xctx = fresh()
+                return sched2.run([lambda: ops[b](xctx), lambda: ops[a](xctx)], sched.choices(prefix))
+
+            for r in sched.explore(run_twice, 2, ctx.pick(300, 5000)):
+                total += 1
+                ctx.case(json.dumps(("meta2", a, b, [d.chosen for d in r.decisions])))
+                if r.diverged:
+                    ctx.violation(f"concurrent run did not finish: {r.diverged}", {"meta2": [b, a], "choices": [d.chosen for d in r.decisions]})
+                    continue
+                for t, name in enumerate((b, a)):
+                    got = r.results.get(t)
+                    if got is None or not _res_eq(got, alone[name]):
+                        ctx.violation(
+                            f"{name} on a shared cold context (next to {(b, a)[1 - t]}, two preemptions) returned {_show(got) if got else None}, alone it returns {_show(alone[name])}",
+                            {"meta2": [b, a], "choices": [d.chosen for d in r.decisions], "trace": r.trace[:60]})
     return total
 
 
@@ -391,6 +413,18 @@ def replay(ctx, doc):
     scheduler = sched.Scheduler(ms)
     if "case" in case:
         replay_schedule(ctx, ms, scheduler, case["case"])
+    elif "meta2" in case:
+        from xsdata.formats.dataclass.context import XmlContext
+
+        mod = cb.meta_package()
+        ops = meta_ops(mod)
+        b, a = case["meta2"]
+        xctx = XmlContext(models_package=mod.__name__)
+        r = sched.Scheduler(cb.meta_markers(context_only=True)).run([lambda: ops[b](xctx), lambda: ops[a](xctx)], sched.choices(case.get("choices", [])))
+        for t, name in enumerate((b, a)):
+            alone = ("ok", ops[name](XmlContext(models_package=mod.__name__)))
+            if not _res_eq(r.results.get(t), alone):
+                ctx.violation(f"{name}: {_show(r.results.get(t))} vs alone {_show(alone)}", case)
     elif "meta" in case:
         from xsdata.formats.dataclass.context import XmlContext
 
